@@ -33,4 +33,10 @@ CDNS::CdnsBlockRead r05_3_late_lookahead(CDNS::CdnsDecoder& dec, std::vector<CDN
     return block;
 }
 
+// R14.4 no-partial-reset: a compressor reused for the next output without forgetting the previous one
+int r14_4_partial_reset(z_stream& strm)
+{
+    return deflateResetKeep(&strm);
+}
+
 }
